@@ -1,21 +1,21 @@
 /* C17 -- bulk fork-join helpers equal the sequential loop (DESIGN §4 C17).  C half only.
  *
- * Functions under contract (real, unmodified bodies from src/myth_sched_func.h):
+ * Functions under contract (real bodies from src/myth_sched_func.h):
  *   myth_create_join_various_ex_aux    recursive halving; --enforce-contract-rec, the syntactic recursive call
  *                                      aux(carg + 1) is replaced by the SAME contract (induction on b - a)
  *   myth_create_join_various_ex_body   against the contract proved for aux
  *   myth_create_join_many_ex_body      against the contract proved for various_ex_body (many = various, func stride 0)
  *
- * The UNIVERSE of one check (assigned once by the harness, in no assigns clause, hence invariant):
- *   five user arrays, each its own dynamic object of SYMBOLIC size (up to 2^50 bytes): ARGS (only addresses are taken),
- *   FUNCS (read), ATTRS (only addresses), RES (written), IDS (written);  g_res / g_ids / g_attrs = base pointer or NULL;  strides g_as, g_fs,
- *   g_ts, g_rs, g_is: args/attrs any, funcs 0 or a multiple of 8, results/ids a non-zero multiple of 8 when given
- *   (aligned, non-overlapping 8-byte slots), every item of [0, g_hb) inside its array; strides and n below 2^31 as
- *   soon as one array is really strided (i*stride does not overflow), n <= LONG_MAX/2 otherwise.
+ * The UNIVERSE of one check (assigned once by setup(), in no assigns clause, hence invariant):
+ *   five user arrays, each its own dynamic object of SYMBOLIC size (up to 2^50 bytes): ARGS and ATTRS (only addresses
+ *   are taken), FUNCS (read), RES (written), IDS (written);  g_res / g_ids / g_attrs = base pointer or NULL;  strides
+ *   g_as, g_ts any, g_fs 0 or a multiple of 8, g_rs / g_is a non-zero multiple of 8 when the array is given (aligned,
+ *   non-overlapping 8-byte slots); every item of [0, g_hb) inside its array; strides and n below 2^31 as soon as one
+ *   array is really strided (then i*stride < 2^62 does not overflow), n <= LONG_MAX/2 when every stride is 0.
  *   The function table DEFINES f_i: f_{g_w} = F_watch and f_i = F_other for i != g_w (func stride >= 8); the one
- *   shared f = F_watch (func stride 0).  This is a universally quantified fact about user memory that nobody writes;
- *   h_aux assumes its instance at the only slot the call under proof can read itself (slot g_ha, read when the range
- *   is the single item g_ha) -- a weaker hypothesis than the quantified one.
+ *   shared f = F_watch (func stride 0).  That is a universally quantified fact about user memory nobody writes;
+ *   h_aux assumes its instance at the only slot the call under proof reads itself (slot g_ha, read when the range is
+ *   the single item g_ha) -- a weaker hypothesis than the quantified one.
  * Witness g_w >= 0 (chosen before the call; the code cannot see it).  IDENT = (arg stride >= 1 || func stride >= 8):
  *   the call of item g_w is recognisable (by its argument address g_warg = ARGS + g_w*g_as, or by its function).
  *   F_watch / F_other are the user's functions (harness stubs); they only count:
@@ -37,27 +37,38 @@
  * Measure: ghost g_in_body is set at the first statement of aux's body (one-line ghost hook put there by a recorded
  *   must-fire rewrite, no other change of the text); a call from inside the body must lie within [g_ha, g_hb) (the
  *   range of the call under proof) and have b - a < g_hb - g_ha: decreases b - a.
- * Arithmetic: the only non-linear facts needed are instances of  x < y && s >= 0 ==> x*s + s <= y*s  (distinct items
- *   have disjoint slots).  SAT cannot prove that beyond ~9 bits; it is proved over the mathematical integers by job
- *   c17.lemma.mono (z3) and its instances for x = g_ha are assumed in h_aux (operands < 2^31: no overflow).
+ * Arithmetic.  Everything the proof needs about i*stride is: equal operands give equal products, and
+ *   x < y && s >= 0 ==> x*s + s <= y*s  (slots of distinct items are disjoint, the last item bounds every item).
+ *   A SAT solver cannot derive either from multiplier circuits (the second not beyond ~9 bits, the first -- two
+ *   multipliers over the same operands -- not within minutes at 31x18 bits; both probed).  Therefore
+ *   VMUL == 1 (jobs c17.aux, c17.various, c17.many): the five products  a * <x>_stride  of aux are taken through
+ *             verif_mul (recorded must-fire rewrite  `a * id_stride` -> `verif_mul(a, id_stride, 0)` etc.), an
+ *             UNINTERPRETED multiplication: it returns the universe's product table entry for the operands
+ *             (g_ha, stride of that array) and an arbitrary value for any other operands; the table entries
+ *             (products of g_ha, g_w, g_hb - 1 and the guard item with each stride) are arbitrary numbers subject
+ *             to the two facts above (AXIOM).  Real multiplication is one such table: the proof covers it.
+ *             The lemma is proved over the mathematical integers by job c17.lemma.mono (z3).
+ *   VMUL == 0 (jobs c17.aux.s*, bounded cross-check): the unrewritten text with REAL multiplication for a few constant
+ *             stride tuples; the table is computed (i*const) and every AXIOM is an assertion, i.e. the axioms are
+ *             checked against machine arithmetic there.  These jobs also see mutations of the multiplication sites.
  */
 #include "verif_common.h"
 #include <limits.h>
 #include <stdlib.h>
 
-/* bounds of a STRIDED universe (some array really indexed): item numbers below 2^31, strides below 2^18 bytes; then
-   i*stride < 2^49 never overflows and every array fits an object of the model (cbmc --object-bits 12: 2^51 bytes).
-   Written on the bits so that the SAT solver sees them by unit propagation. */
-#define SMALLN(x) (((unsigned long)(x) >> 31) == 0)
-#define SMALLS(x) (((unsigned long)(x) >> 18) == 0)
+#ifndef VMUL
+#define VMUL 1
+#endif
+#define SMALLN(x) (((unsigned long)(x) >> 31) == 0)                              /* 0 <= x < 2^31 */
 #define PROD(i, s) ((long)((unsigned long)(i) * (unsigned long)(s)))            /* i*s exactly as the library computes it (long * size_t) */
-#define SLACK (1L << 49)                                                         /* an array may be up to 2^49 bytes longer than its last slot */
+#define PMAX  (1L << 49)                                                         /* no table product exceeds 2^49 ... */
+#define SLACK (1L << 49)                                                         /* ... and an array may be up to 2^49 bytes longer than its last slot: objects <= 2^50 bytes */
 
 /* ------------------------------------------------------------------ ghosts */
 long   g_w;                            /* witness item */
 long   g_ha, g_hb;                     /* range of the call under proof */
 int    g_in_body;                      /* 1 from the first statement of aux's body */
-size_t g_is, g_ts, g_fs, g_as, g_rs;   /* strides: ids, attrs, funcs, args, results */
+size_t g_is, g_fs, g_as, g_rs, g_ts;   /* strides: ids, funcs, args, results, attrs */
 void * g_ids, * g_attrs, * g_res;      /* base pointers or NULL */
 long   g_count, g_c0; int g_calls, g_bad;
 long   g_wrc, g_wic;                   /* cell index of item g_w's result / id slot (0 when there is none) */
@@ -67,26 +78,45 @@ void * g_self;                         /* what myth_self() returns in the thread
 long   g_p0, g_pending;                /* outstanding children: level of the call under proof / now */
 long   g_ca, g_cb;                     /* range of the outstanding child of this level */
 long   g_gri, g_grd, g_grc, g_gii, g_gid, g_gic;     /* guard cells: cell g_grc of RES is byte offset g_gri*g_rs + g_grd */
+/* product table of the universe: g_ha * stride (by array: 0 ids, 1 funcs, 2 args, 3 results, 4 attrs) */
+enum { X_IDS = 0, X_FUNCS = 1, X_ARGS = 2, X_RES = 3, X_ATTRS = 4 };
+long   g_Pha_i, g_Pha_f, g_Pha_a, g_Pha_r, g_Pha_t;
+long   g_Pw_a, g_Pw_r, g_Pw_i;         /* g_w * stride */
+long   g_Pl_f, g_Pl_r, g_Pl_i;         /* (g_hb - 1) * stride */
+long   g_Pg_r, g_Pg_i;                 /* guard item * stride */
 
 char   RETCELL[2];
 char   THR[3];                         /* thread tokens: THR[0] the thread under proof, THR[1] the child of this level, THR[2] deeper ones */
 
 static inline void verif_aux_entered(void) { g_in_body = 1; }
 
+unsigned long nondet_ulong(void);
+/* uninterpreted multiplication (VMUL jobs): the table entry for the universe's operands, anything otherwise */
+static inline unsigned long verif_mul(long i, unsigned long s, int which) {
+  unsigned long r = nondet_ulong();
+  if (i == g_ha) {
+    if (which == X_IDS   && s == g_is) r = (unsigned long)g_Pha_i;
+    if (which == X_FUNCS && s == g_fs) r = (unsigned long)g_Pha_f;
+    if (which == X_ARGS  && s == g_as) r = (unsigned long)g_Pha_a;
+    if (which == X_RES   && s == g_rs) r = (unsigned long)g_Pha_r;
+    if (which == X_ATTRS && s == g_ts) r = (unsigned long)g_Pha_t;
+  }
+  return r;
+}
+
 #include "myth_sched_func.h"           /* the real code */
 
 myth_thread_t myth_self(void) { return (myth_thread_t)g_self; }
 
-/* the five user arrays: dynamic objects of SYMBOLIC size (g_na, g_nt bytes; g_nf, g_nr, g_ni cells of 8 bytes), built by setup() */
-char          * ARGS;   long g_na;
+/* the five user arrays: dynamic objects of SYMBOLIC size (g_nf, g_nr, g_ni cells of 8 bytes), built by setup() */
+char          * ARGS;
 myth_func_t   * FUNCS;  long g_nf;
-char          * ATTRS;  long g_nt;
+char          * ATTRS;
 void         ** RES;    long g_nr;
 myth_thread_t * IDS;    long g_ni;
 
 /* ------------------------------------------------------------------ the user's functions */
 #define IDENT (g_as >= 1 || g_fs >= 8)
-#define STRIDED (g_as != 0 || g_fs != 0 || (g_attrs != 0 && g_ts != 0) || g_res != 0 || g_ids != 0)   /* some array is really indexed: n < 2^31 */
 static void * F_watch(void * arg) {
   if (g_count < LONG_MAX) g_count++;
   if (!IDENT) return g_ret;
@@ -105,9 +135,6 @@ static void * F_other(void * arg) {
 #define RESSLOT      RES[g_wrc]
 #define IDSLOT       IDS[g_wic]
 #define INR(a, b)    ((a) <= g_w && g_w < (b))
-/* instances of the lemma  x < y && s >= 0 ==> x*s + s <= y*s  (job c17.lemma.mono); operands bounded: no overflow */
-#define MONO1(x, y, s) ((x) < (y) ==> PROD(x, s) + (long)(s) <= PROD(y, s))
-#define MONO(x, y, s)  ((SMALLN(x) && SMALLN(y) && SMALLS(s)) ==> (MONO1(x, y, s) && MONO1(y, x, s) && ((x) == (y) ==> PROD(x, s) == PROD(y, s))))   /* last: congruence, a tautology spelled out for the SAT solver */
 /* the argument block of a call of aux describes the universe and a non-empty sub-range */
 #define BLOCK_OK(m) \
   (MA(m)->ids == g_ids && MA(m)->attrs == g_attrs && MA(m)->args == (void *)ARGS && MA(m)->results == g_res && \
@@ -115,14 +142,14 @@ static void * F_other(void * arg) {
    MA(m)->arg_stride == g_as && MA(m)->result_stride == g_rs && \
    (g_fs == 0 ? (__CPROVER_r_ok((myth_func_t *)MA(m)->funcs, sizeof(myth_func_t)) && *(myth_func_t *)MA(m)->funcs == F_watch) \
               : MA(m)->funcs == (void *)FUNCS) && \
-   g_ha <= MA(m)->a && MA(m)->a < MA(m)->b && MA(m)->b <= g_hb && \
-   (STRIDED ==> (SMALLN(MA(m)->a) && SMALLN(MA(m)->b))))
+   g_ha <= MA(m)->a && MA(m)->a < MA(m)->b && MA(m)->b <= g_hb)
 #define GHOSTS_OK \
   (0 <= g_c0 && g_c0 <= LONG_MAX / 2 && g_c0 <= g_count && g_count <= g_c0 + (g_hb - g_ha) && g_bad == 0 && 0 <= g_calls && g_calls <= 1 && \
    g_p0 >= 0 && g_p0 <= LONG_MAX / 2 && g_p0 <= g_pending && g_pending <= g_p0 + 1)
 #define SMALLER(a, b) ((b) - (a) < g_hb - g_ha)
+#define OLD(x) __CPROVER_old(x)
 
-/* effect of running every item of [a, b) exactly once, as a list of ensures clauses; OLD(x) = value of x before */
+/* effect of running every item of [a, b) exactly once, as a list of ensures clauses */
 #define RANGE_ENSURES_NP(a, b) \
   __CPROVER_ensures(g_count == OLD(g_count) + ((b) - (a)))                /* 1 exactly b - a user calls */ \
   __CPROVER_ensures(g_bad == 0)                                           /* 2 no item's argument given to another item's function */ \
@@ -135,9 +162,8 @@ static void * F_other(void * arg) {
 
 #define RANGE_ENSURES(a, b) RANGE_ENSURES_NP(a, b) \
   __CPROVER_ensures(g_pending == OLD(g_pending))                          /* 9 every child joined */
-#define OLD(x) __CPROVER_old(x)
 
-/* frame: the two output arrays when given (which bytes: closed by the guard bytes of RANGE_POST, an arbitrary byte each) */
+/* frame: the two output arrays when given (which cells: closed by the guard cells above, an arbitrary cell each) */
 #define RANGE_ASSIGNS \
    g_count, g_calls, g_bad, g_wid, g_pending, g_ca, g_cb; \
    g_res != 0: __CPROVER_object_whole(RES); \
@@ -157,6 +183,14 @@ void * aux_contract(void * meta_arg_)
   /* the child record of the level under proof is not touched by deeper levels (they keep their own) */
   __CPROVER_ensures(OLD(g_in_body) == 1 ==> (g_ca == OLD(g_ca) && g_cb == OLD(g_cb)));
 
+/* byte offset of the attribute slot of item i (VMUL: the only item whose product is in the table is g_ha) */
+#if VMUL
+#define ATTR_ITEM_OK(i) ((i) == g_ha)
+#define ATTR_OFF(i)     g_Pha_t
+#else
+#define ATTR_ITEM_OK(i) 1
+#define ATTR_OFF(i)     PROD(i, g_ts)
+#endif
 /* ASSUMED (C01 + induction hypothesis): see header.  The child's effect is granted at join, not before. */
 int create_contract(myth_thread_t * id, myth_thread_attr_t * attr, myth_func_t func, void * arg)
   __CPROVER_requires(GHOSTS_OK && g_in_body == 1)
@@ -165,7 +199,8 @@ int create_contract(myth_thread_t * id, myth_thread_attr_t * attr, myth_func_t f
   __CPROVER_requires(__CPROVER_r_ok(MA(arg), sizeof(myth_create_join_various_arg)) && BLOCK_OK(arg))
   __CPROVER_requires(SMALLER(MA(arg)->a, MA(arg)->b))
   __CPROVER_requires(g_pending == g_p0)                                    /* this level has no child outstanding */
-  __CPROVER_requires(attr == (g_attrs ? (myth_thread_attr_t *)(ATTRS + PROD(MA(arg)->a, g_ts)) : (myth_thread_attr_t *)0))
+  /* the new thread gets the attributes of the first item it is responsible for */
+  __CPROVER_requires(g_attrs == 0 ? attr == 0 : (ATTR_ITEM_OK(MA(arg)->a) && attr == (myth_thread_attr_t *)(ATTRS + ATTR_OFF(MA(arg)->a))))
   __CPROVER_assigns(*id, g_pending, g_ca, g_cb)
   __CPROVER_ensures(__CPROVER_return_value == 0 && *id == (myth_thread_t)&THR[1])
   __CPROVER_ensures(g_pending == g_p0 + 1 && g_ca == OLD(MA(arg)->a) && g_cb == OLD(MA(arg)->b));
@@ -173,7 +208,7 @@ int create_contract(myth_thread_t * id, myth_thread_attr_t * attr, myth_func_t f
 int join_contract(myth_thread_t th, void ** result)
   __CPROVER_requires(GHOSTS_OK && g_in_body == 1)
   __CPROVER_requires(th == (myth_thread_t)&THR[1] && g_pending == g_p0 + 1)   /* the outstanding child, once */
-  __CPROVER_requires(result == 0)
+  __CPROVER_requires(result == 0)                                              /* aux returns nothing of interest */
   __CPROVER_requires(g_ha <= g_ca && g_ca < g_cb && g_cb <= g_hb && g_count + (g_cb - g_ca) <= g_c0 + (g_hb - g_ha))
   __CPROVER_assigns(RANGE_ASSIGNS)
   __CPROVER_ensures(__CPROVER_return_value == 0)
@@ -211,90 +246,106 @@ void * (*keep_aux)(void *) = myth_create_join_various_ex_aux;
 /* ------------------------------------------------------------------ harness: the universe, built constructively */
 myth_create_join_various_arg H_ARG;
 
-/* Two universes (one set of jobs each):
-     UNI == 1  strided: item numbers below 2^31, strides below 2^18 bytes -- chosen as ZERO-EXTENDED narrow values, so that
-               the upper bits of every multiplication operand are constants and CBMC builds 31x18-bit multipliers;
-     UNI == 0  degenerate: every stride 0, no results / ids array: n up to LONG_MAX/2. */
-#ifndef UNI
-#define UNI 1
-#endif
-static long pick_index(void) {
-#if UNI
-  return (long)(nondet_unsigned() >> 1);
+/* a product table entry: VMUL: an arbitrary number in [0, 2^49] (constrained only by the AXIOMs below);
+   otherwise the machine product (the stride is a constant there) */
+#if VMUL
+static long table_entry(void) { long p = nondet_long(); __CPROVER_assume(0 <= p && p <= PMAX); return p; }
+#define TBL(i, s) table_entry()
+#define AXIOM(x, txt) __CPROVER_assume(x)
 #else
-  long v = nondet_long(); __CPROVER_assume(0 <= v && v <= LONG_MAX / 2); return v;
+#define TBL(i, s) PROD(i, s)
+#define AXIOM(x, txt) __CPROVER_assert(x, "C17 axiom holds for machine multiplication: " txt)
 #endif
-}
-static size_t pick_stride(_Bool zero_ok, _Bool cells) {
-#ifdef FIXSTRIDE
-  return cells ? 16 : 24;
-#elif UNI
-  unsigned r = nondet_unsigned();
-  size_t st = cells ? (size_t)((r >> 17) << 3) : (size_t)(r >> 14);
-  __CPROVER_assume(zero_ok || st != 0);
+/* the two facts about products i*s, j*s of one stride s (job c17.lemma.mono): congruence and strict monotonicity with gap s */
+#define REL(i, pi, j, pj, s) \
+  (((i) == (j) ==> (pi) == (pj)) && ((i) < (j) ==> (pi) + (long)(s) <= (pj)) && ((j) < (i) ==> (pj) + (long)(s) <= (pi)))
+#define ZERO(i, p, s) (((s) == 0 || (i) == 0) ==> (p) == 0)
+
+#ifndef SAMPLE
+#define SAMPLE 0
+#endif
+static size_t pick_stride(int k, _Bool zero_ok, _Bool cells) {
+#if VMUL
+  size_t st = nondet_ulong();
+  __CPROVER_assume(SMALLN(st) && (zero_ok || st != 0) && (!cells || st % 8 == 0));
+  (void)k;
   return st;
 #else
-  return 0;
+  /* SAMPLE selects a tuple of constant strides: (ids, funcs, args, results, attrs) */
+  (void)zero_ok; (void)cells;
+  return SAMPLE == 0 ? (k == X_IDS ? 8 : k == X_FUNCS ? 0 : k == X_ARGS ? 1 : k == X_RES ? 8 : 0)
+       : SAMPLE == 1 ? (k == X_IDS ? 24 : k == X_FUNCS ? 16 : k == X_ARGS ? 40 : k == X_RES ? 32 : 48)
+       :               (k == X_IDS ? 4096 : k == X_FUNCS ? 8 : k == X_ARGS ? 0 : k == X_RES ? 16 : 7);
 #endif
 }
-/* bytes needed by an array whose items of w bytes lie st bytes apart (st: one of the stride ghosts, used when `given`),
-   plus arbitrary slack.  A macro, so that every product is the same expression over the same ghosts: CBMC then
-   builds ONE multiplier for it (two multipliers over equal-but-distinct inputs are a hard SAT problem) */
-#define NEED(given, st, w) (((given) && (st) != 0 && g_hb != 0) ? SPROD(g_hb - 1, st) + (w) : (w))
 static long pick_slack(void) {
   long extra = nondet_long();
   __CPROVER_assume(0 <= extra && extra <= SLACK);
   return extra;
 }
-#ifdef NOPROD
-long nondet_long(void);
-#define SPROD(i, s) (nondet_long())
-#else
-#define SPROD(i, s) PROD(i, s)
-#endif
 static void setup(void) {
-  /* strides: args / attrs any; funcs 0 (one shared function) or aligned cells; results / ids aligned cells */
-  _Bool with_attrs = nondet_bool();
-#if UNI
-  _Bool with_ids = nondet_bool(), with_res = nondet_bool();
-#else
-  _Bool with_ids = 0, with_res = 0;
-#endif
-  g_as = pick_stride(1, 0); g_fs = pick_stride(1, 1); g_ts = pick_stride(1, 0);
-  g_rs = pick_stride(!with_res, 1); g_is = pick_stride(!with_ids, 1);
+  _Bool with_ids = nondet_bool(), with_attrs = nondet_bool(), with_res = nondet_bool();
+  /* strides: args / attrs any; funcs 0 (one shared function) or aligned cells; results / ids aligned non-empty cells */
+  g_is = pick_stride(X_IDS, !with_ids, 1); g_fs = pick_stride(X_FUNCS, 1, 1); g_as = pick_stride(X_ARGS, 1, 0);
+  g_rs = pick_stride(X_RES, !with_res, 1); g_ts = pick_stride(X_ATTRS, 1, 0);
   /* range of the call under proof and witness */
-  g_ha = pick_index(); g_hb = pick_index(); g_w = pick_index();
-  __CPROVER_assume(g_ha <= g_hb);
-  /* user memory: five dynamic objects of symbolic size (malloc(n * sizeof(T)) gives an array of n cells of type T) */
-  g_na = NEED(1, g_as, 1) + pick_slack(); g_nt = NEED(with_attrs, g_ts, 1) + pick_slack();
-  g_nf = (NEED(1, g_fs, 8) + pick_slack()) / 8 + 1; g_nr = (NEED(with_res, g_rs, 8) + pick_slack()) / 8 + 1;
-  g_ni = (NEED(with_ids, g_is, 8) + pick_slack()) / 8 + 1;
-  ARGS = malloc((size_t)g_na); ATTRS = malloc((size_t)g_nt);
+  g_ha = nondet_long(); g_hb = nondet_long(); g_w = nondet_long();
+  __CPROVER_assume(0 <= g_w && 0 <= g_ha && g_ha <= g_hb && g_hb <= LONG_MAX / 2);
+  _Bool strided = g_as != 0 || g_fs != 0 || (with_attrs && g_ts != 0) || with_res || with_ids;
+  if (strided) __CPROVER_assume(SMALLN(g_hb));
+  _Bool w_in = g_w < g_hb, some = g_hb != 0;
+  long last = some ? g_hb - 1 : 0;
+  /* guard items: any item number (also beyond the range: the slack of the array) and an aligned offset within the stride */
+  g_gri = g_grd = g_gii = g_gid = 0;
+  if (with_res) { g_gri = nondet_long(); g_grd = nondet_long(); __CPROVER_assume(0 <= g_gri && SMALLN(g_gri) && 0 <= g_grd && g_grd < (long)g_rs && g_grd % 8 == 0); }
+  if (with_ids) { g_gii = nondet_long(); g_gid = nondet_long(); __CPROVER_assume(0 <= g_gii && SMALLN(g_gii) && 0 <= g_gid && g_gid < (long)g_is && g_gid % 8 == 0); }
+  /* the product table: entries that are never used (array absent, witness outside, empty range) are 0 */
+  g_Pha_a = some ? TBL(g_ha, g_as) : 0;               g_Pw_a = w_in ? TBL(g_w, g_as) : 0;
+  g_Pha_f = some ? TBL(g_ha, g_fs) : 0;               g_Pl_f = some ? TBL(last, g_fs) : 0;
+  g_Pha_t = (some && with_attrs) ? TBL(g_ha, g_ts) : 0;
+  g_Pha_r = (some && with_res) ? TBL(g_ha, g_rs) : 0; g_Pw_r = (w_in && with_res) ? TBL(g_w, g_rs) : 0;
+  g_Pl_r  = (some && with_res) ? TBL(last, g_rs) : 0; g_Pg_r = with_res ? TBL(g_gri, g_rs) : 0;
+  g_Pha_i = (some && with_ids) ? TBL(g_ha, g_is) : 0; g_Pw_i = (w_in && with_ids) ? TBL(g_w, g_is) : 0;
+  g_Pl_i  = (some && with_ids) ? TBL(last, g_is) : 0; g_Pg_i = with_ids ? TBL(g_gii, g_is) : 0;
+  if (some) {
+    AXIOM(ZERO(g_ha, g_Pha_a, g_as) && ZERO(g_ha, g_Pha_f, g_fs) && ZERO(last, g_Pl_f, g_fs), "zero");
+    AXIOM(REL(g_ha, g_Pha_f, last, g_Pl_f, g_fs), "funcs: g_ha / last");
+    AXIOM(g_Pha_f % 8 == 0 && g_Pl_f % 8 == 0, "funcs: aligned");
+    if (w_in) AXIOM(ZERO(g_w, g_Pw_a, g_as) && REL(g_ha, g_Pha_a, g_w, g_Pw_a, g_as), "args: g_ha / g_w");
+    if (with_attrs) AXIOM(ZERO(g_ha, g_Pha_t, g_ts), "attrs: zero");
+  }
+  if (with_res) {
+    AXIOM(g_Pg_r % 8 == 0, "results: aligned");
+    if (some) {
+      AXIOM(g_Pha_r % 8 == 0 && g_Pl_r % 8 == 0, "results: aligned");
+      AXIOM(REL(g_ha, g_Pha_r, last, g_Pl_r, g_rs) && REL(g_ha, g_Pha_r, g_gri, g_Pg_r, g_rs) && REL(last, g_Pl_r, g_gri, g_Pg_r, g_rs), "results: g_ha / last / guard");
+      if (w_in) AXIOM(g_Pw_r % 8 == 0 && REL(g_ha, g_Pha_r, g_w, g_Pw_r, g_rs) && REL(g_w, g_Pw_r, last, g_Pl_r, g_rs) && REL(g_w, g_Pw_r, g_gri, g_Pg_r, g_rs), "results: g_w");
+    }
+  }
+  if (with_ids) {
+    AXIOM(g_Pg_i % 8 == 0, "ids: aligned");
+    if (some) {
+      AXIOM(g_Pha_i % 8 == 0 && g_Pl_i % 8 == 0, "ids: aligned");
+      AXIOM(REL(g_ha, g_Pha_i, last, g_Pl_i, g_is) && REL(g_ha, g_Pha_i, g_gii, g_Pg_i, g_is) && REL(last, g_Pl_i, g_gii, g_Pg_i, g_is), "ids: g_ha / last / guard");
+      if (w_in) AXIOM(g_Pw_i % 8 == 0 && REL(g_ha, g_Pha_i, g_w, g_Pw_i, g_is) && REL(g_w, g_Pw_i, last, g_Pl_i, g_is) && REL(g_w, g_Pw_i, g_gii, g_Pg_i, g_is), "ids: g_w");
+    }
+  }
+#if !VMUL
+  __CPROVER_assume(g_Pl_f <= PMAX && g_Pl_r <= PMAX && g_Pl_i <= PMAX && g_Pg_r <= PMAX && g_Pg_i <= PMAX);   /* objects of the model hold at most 2^50 bytes */
+#endif
+  /* user memory: dynamic objects of symbolic size: every item of [0, g_hb) inside, plus arbitrary slack
+     (malloc(n * sizeof(T)) gives an array of n cells of type T); ARGS / ATTRS are never dereferenced: any size */
+  g_nf = (g_Pl_f + 8 + pick_slack()) / 8; g_nr = (g_Pl_r + 8 + pick_slack()) / 8; g_ni = (g_Pl_i + 8 + pick_slack()) / 8;
+  { long na = nondet_long(), nt = nondet_long(); __CPROVER_assume(1 <= na && na <= SLACK && 1 <= nt && nt <= SLACK);
+    ARGS = malloc((size_t)na); ATTRS = malloc((size_t)nt); }
   FUNCS = malloc((size_t)g_nf * sizeof(myth_func_t)); RES = malloc((size_t)g_nr * sizeof(void *)); IDS = malloc((size_t)g_ni * sizeof(myth_thread_t));
   __CPROVER_assume(ARGS != 0 && ATTRS != 0 && FUNCS != 0 && RES != 0 && IDS != 0);
   g_ids = with_ids ? (void *)IDS : 0; g_attrs = with_attrs ? (void *)ATTRS : 0; g_res = with_res ? (void *)RES : 0;
-  /* witness item: its argument address and its cells */
-  _Bool w_in = g_w < g_hb;
-  g_warg = w_in ? (void *)(ARGS + SPROD(g_w, g_as)) : 0;
-  g_wrc = (w_in && with_res) ? SPROD(g_w, g_rs) / 8 : 0;
-  g_wic = (w_in && with_ids) ? SPROD(g_w, g_is) / 8 : 0;
-  /* lemma instances: the witness lies below the last item */
-  if (w_in) __CPROVER_assume(MONO(g_w, g_hb - 1, g_as) && MONO(g_w, g_hb - 1, g_rs) && MONO(g_w, g_hb - 1, g_is));
-  /* cut: the witness cells lie inside the arrays (proved here once from the lemma instances, then used as a fact) */
-  __CPROVER_assert(0 <= g_wrc && g_wrc < g_nr && 0 <= g_wic && g_wic < g_ni, "C17 universe: the slots of the witness item lie inside the arrays");
-  __CPROVER_assume(0 <= g_wrc && g_wrc < g_nr && 0 <= g_wic && g_wic < g_ni);
-  /* guard cells: any cell of RES / IDS, written as (item number, offset within the stride) */
-  g_gri = g_grd = g_gii = g_gid = 0; g_grc = nondet_long(); g_gic = nondet_long();
-  if (with_res) {
-    g_gri = pick_index(); g_grd = (long)pick_stride(1, 1);
-    __CPROVER_assume(g_grd < (long)g_rs);
-    g_grc = (SPROD(g_gri, g_rs) + g_grd) / 8;
-  }
-  if (with_ids) {
-    g_gii = pick_index(); g_gid = (long)pick_stride(1, 1);
-    __CPROVER_assume(g_gid < (long)g_is);
-    g_gic = (SPROD(g_gii, g_is) + g_gid) / 8;
-  }
+  /* witness item: its argument address and its cells; guard cells (inside the array) */
+  g_warg = w_in ? (void *)(ARGS + g_Pw_a) : 0;
+  g_wrc = g_Pw_r / 8; g_wic = g_Pw_i / 8;
+  g_grc = with_res ? (g_Pg_r + g_grd) / 8 : nondet_long();
+  g_gic = with_ids ? (g_Pg_i + g_gid) / 8 : nondet_long();
   __CPROVER_assume(0 <= g_grc && g_grc < g_nr && 0 <= g_gic && g_gic < g_ni);
   /* what the user's functions return, who we are, counters */
   g_ret = nondet_bool() ? (void *)&RETCELL[0] : 0;
@@ -306,18 +357,11 @@ static void setup(void) {
   /* ARGS / FUNCS / ATTRS / RES / IDS: arbitrary content (fresh dynamic objects are nondet) */
 }
 
-#define FUNCSLOT(i) (FUNCS[PROD(i, g_fs) / 8])
 void h_aux(void) {
   setup();
   __CPROVER_assume(g_ha < g_hb);
-  /* lemma instances (distinct items have disjoint slots; the last item bounds every item) */
-#ifndef NOMONO
-  __CPROVER_assume(MONO(g_ha, g_hb - 1, g_fs) && MONO(g_ha, g_hb - 1, g_rs) && MONO(g_ha, g_hb - 1, g_is));
-  __CPROVER_assume(g_w < g_hb ==> (MONO(g_ha, g_w, g_as) && MONO(g_ha, g_w, g_rs) && MONO(g_ha, g_w, g_is)));
-  __CPROVER_assume(MONO(g_ha, g_gri, g_rs) && MONO(g_ha, g_gii, g_is));
-#endif
   /* f_i is what the table holds (definition); instance for the one slot this call can read itself */
-  __CPROVER_assume(FUNCSLOT(g_ha) == ((g_fs == 0 || g_ha == g_w) ? F_watch : F_other));
+  __CPROVER_assume(FUNCS[g_Pha_f / 8] == ((g_fs == 0 || g_ha == g_w) ? F_watch : F_other));
   H_ARG.ids = g_ids; H_ARG.attrs = g_attrs; H_ARG.funcs = (void *)FUNCS; H_ARG.args = (void *)ARGS; H_ARG.results = g_res;
   H_ARG.id_stride = g_is; H_ARG.attr_stride = g_ts; H_ARG.func_stride = g_fs; H_ARG.arg_stride = g_as; H_ARG.result_stride = g_rs;
   H_ARG.a = g_ha; H_ARG.b = g_hb;
@@ -328,7 +372,7 @@ void h_aux(void) {
 void h_various(void) {
   setup();
   __CPROVER_assume(g_ha == 0);
-  myth_create_join_various_ex_body((myth_thread_t *)g_ids, (myth_thread_attr_t *)g_attrs, (myth_func_t *)FUNCS, (void *)ARGS, g_res,
+  myth_create_join_various_ex_body((myth_thread_t *)g_ids, (myth_thread_attr_t *)g_attrs, FUNCS, (void *)ARGS, g_res,
                                    g_is, g_ts, g_fs, g_as, g_rs, g_hb);
   VERIF_CANARY();
 }
@@ -341,7 +385,7 @@ void h_many(void) {
   VERIF_CANARY();
 }
 
-/* the arithmetic lemma behind MONO, over the mathematical integers (SMT back end) */
+/* the arithmetic lemma behind REL, over the mathematical integers (SMT back end) */
 __CPROVER_integer nondet_integer(void);
 void h_lemma_mono(void) {
   __CPROVER_integer x = nondet_integer(), y = nondet_integer(), st = nondet_integer();
